@@ -26,6 +26,7 @@ type SpecEnv struct {
 	bound  map[string]Val
 	loop   *loopInfo
 	inOld  bool
+	nowSt  *State // inside old(..): the state old was entered from (for now(..))
 	useWitness bool
 }
 
@@ -206,7 +207,17 @@ func (fv *FuncVC) evalSpec(env *SpecEnv, e SExpr) Val {
 			// type facts as guards for refs: none (quantify over all ints) except interface sanity
 		}
 		fv.binderDepth++
+		fv.sideStack = append(fv.sideStack, nil)
 		body := fv.evalSpec(ne, x.Body).One()
+		// instances of the post-conditions of pure functions applied to the bound variables
+		if sides := fv.sideStack[len(fv.sideStack)-1]; len(sides) > 0 {
+			if x.Forall {
+				body = Implies(And(sides...), body)
+			} else {
+				body = And(append(append([]string(nil), sides...), body)...)
+			}
+		}
+		fv.sideStack = fv.sideStack[:len(fv.sideStack)-1]
 		var pats []string
 		for _, te := range x.Triggers {
 			tv := fv.evalSpec(ne, te)
@@ -876,11 +887,27 @@ func (fv *FuncVC) evalCall(env *SpecEnv, x *SCall) Val {
 		switch id.Name {
 		case "old":
 			ne := env.clone()
+			if !env.inOld {
+				ne.nowSt = env.cur
+			}
 			ne.cur = env.old
 			ne.inOld = true
 			v := fv.evalSpec(ne, x.Args[0])
 			if v.St == nil {
 				v.St = env.old
+			}
+			return v
+		case "now":
+			// now(e) inside old(..): e is evaluated in the current state (e.g. old(member(l, now(xs[j]))))
+			if !env.inOld || env.nowSt == nil {
+				return fv.evalSpec(env, x.Args[0])
+			}
+			ne := env.clone()
+			ne.cur = env.nowSt
+			ne.inOld = false
+			v := fv.evalSpec(ne, x.Args[0])
+			if v.St == nil {
+				v.St = env.nowSt
 			}
 			return v
 		case "len":
@@ -1225,7 +1252,9 @@ func (fv *FuncVC) specGoCall(env *SpecEnv, fn *ssa.Function, args []Val) Val {
 				args[i].T = fn.Params[i].Type()
 			}
 		}
-		return fv.pureApp(env.cur, fn, con, args, rt)
+		res := fv.pureApp(env.cur, fn, con, args, rt)
+		fv.pureEnsuresInstance(env, fn, con, args, res, rt)
+		return res
 	}
 	fv.specMode++
 	defer func() { fv.specMode-- }()
@@ -1412,16 +1441,97 @@ func (fv *FuncVC) pureAppKeys(st *State, base string, keys []HeapKey, args []Val
 			sorts = append(sorts, cs[i].Sort)
 		}
 	}
+	nargs := len(as)
 	for _, hk := range keys {
 		as = append(as, fv.m.heapGet(st, hk))
 		sorts = append(sorts, hk.Sort)
 	}
+	basAs, guard := fv.allocBaseArgs(st, keys, args, as, nargs)
 	cs := fv.m.Flatten(rt)
 	res := Val{T: rt, C: make([]string, len(cs))}
 	for i, c := range cs {
 		name := fmt.Sprintf("%s%s", base, sanitize(c.Path))
 		fv.ctx.Decl(name, sorts, c.Sort)
 		res.C[i] = App(name, as...)
+		if basAs != nil {
+			res.C[i] = Ite(guard, App(name, basAs...), res.C[i])
+		}
 	}
 	return res
+}
+
+// allocBaseArgs: if st differs from its allocation base only by writes to objects allocated after the
+// base, a pure application whose reference arguments all exist in the base has the value it has in
+// the base (every object reachable from them existed then, and none of those was written). Returns
+// the argument list over the base heap and the guard, or nil when there is nothing to gain.
+func (fv *FuncVC) allocBaseArgs(st *State, keys []HeapKey, args []Val, as []string, nargs int) ([]string, string) {
+	if st.abase == nil || fv.m.recording != nil {
+		return nil, ""
+	}
+	bas := append([]string(nil), as[:nargs]...)
+	differs := false
+	for i, hk := range keys {
+		b := fv.m.heapGet(st.abase, hk)
+		if b != as[nargs+i] {
+			differs = true
+		}
+		bas = append(bas, b)
+	}
+	if !differs {
+		return nil, ""
+	}
+	var gs []string
+	for _, a := range args {
+		cs := fv.m.Flatten(a.T)
+		for i, c := range a.C {
+			switch cs[i].Kind {
+			case "ref", "slice.arr", "if.pay", "time.loc", "opaque":
+				gs = append(gs, fmt.Sprintf("(< %s %s)", c, st.abase.cnt))
+			}
+		}
+	}
+	return bas, And(gs...)
+}
+
+// pureEnsuresInstance: the post-conditions of a pure function hold for every application (given its
+// pre-condition). At top level the instance is assumed; under a binder it becomes a side condition of the
+// innermost enclosing quantifier (an instance of a valid formula, so adding it changes no truth value).
+func (fv *FuncVC) pureEnsuresInstance(env *SpecEnv, fn *ssa.Function, con *Contract, args []Val, res Val, rt types.Type) {
+	if len(con.Ensures) == 0 || fv.pureEnsDepth > 0 || fv.m.recording != nil {
+		return
+	}
+	fv.pureEnsDepth++
+	defer func() { fv.pureEnsDepth-- }()
+	ne := &SpecEnv{fv: fv, names: map[string]Val{}, cur: env.cur, old: env.cur, pkg: pkgOf(fn), bound: env.bound, con: con}
+	for i, p := range fn.Params {
+		if i < len(args) {
+			ne.names[p.Name()] = args[i]
+		}
+	}
+	fv.bindResults(ne.names, res, rt)
+	var pre, post []string
+	for _, r := range con.Requires {
+		pre = append(pre, fv.evalClause(ne, r))
+	}
+	for _, e := range con.Ensures {
+		if e.Local {
+			continue
+		}
+		post = append(post, fv.evalClause(ne, e))
+	}
+	if len(post) == 0 {
+		return
+	}
+	inst := Implies(And(pre...), And(post...))
+	if fv.binderDepth == 0 || !boundVarRe.MatchString(inst) {
+		if fv.binderDepth == 0 {
+			fv.ctx.Assume(inst)
+		} else {
+			fv.ctx.axioms = append(fv.ctx.axioms, inst)
+		}
+		return
+	}
+	if len(fv.sideStack) > 0 {
+		fv.sideStack[len(fv.sideStack)-1] = append(fv.sideStack[len(fv.sideStack)-1], inst)
+	}
 }
